@@ -30,6 +30,7 @@ type ScenCfg struct {
 	InjectAt int
 	MinItems int
 	NoStopTail bool
+	ClosedOnly bool // option occurrences are always closed (optional-value options get a value, multi-value options their max)
 }
 
 func DefaultScen() ScenCfg {
@@ -179,6 +180,11 @@ func (g *scenGen) genOptItem(prevOpen *Item) *Item {
 		return nil
 	}
 	o := opts[g.r.Intn(len(opts))]
+	return g.Occurrence(o)
+}
+
+// Occurrence - one well-formed occurrence of option o at the current level (random key, abbreviation, spelling, value).
+func (g *scenGen) Occurrence(o *Opt) *Item {
 	keys := o.Keys()
 	key := keys[g.r.Intn(len(keys))]
 	it := &Item{Opt: o, OptID: o.ID, Key: key, Level: g.node.Path}
@@ -207,7 +213,7 @@ func (g *scenGen) genOptItem(prevOpen *Item) *Item {
 	case o.Kind.IsFlag():
 		it.K = IFlag
 	case o.Kind.IsScalar(), o.Kind.IsOptional():
-		if o.Kind.IsOptional() && g.r.Chance(1, 3) {
+		if o.Kind.IsOptional() && !g.cfg.ClosedOnly && g.r.Chance(1, 3) {
 			it.K = IOptBare
 			it.Open = true
 			break
@@ -223,6 +229,9 @@ func (g *scenGen) genOptItem(prevOpen *Item) *Item {
 		it.K = IMulti
 		it.Attached = g.r.Bool()
 		n := g.r.Range(o.Min, o.Max)
+		if g.cfg.ClosedOnly {
+			n = o.Max
+		}
 		for i := 0; i < n; i++ {
 			var v string
 			if i == 0 && it.Attached {
@@ -570,3 +579,15 @@ func (g *scenGen) Node() *Node     { return g.node }
 func (g *scenGen) Pay() *Payloads  { return g.pay }
 func (g *scenGen) Mode() int       { return g.mode }
 func (g *scenGen) Render(it *Item) { g.renderOpt(it) }
+
+// Descend - move the generation context into child command c.
+func (g *scenGen) Descend(c string) *Item {
+	it := &Item{K: ICmd, Tok: c, Tokens: []string{c}, Level: g.node.Path}
+	g.node = g.node.Children[c]
+	return it
+}
+
+// NewScenGen - context for hand-assembled scenarios.
+func NewScenGen(r *Rng, t *Tree, cfg ScenCfg) *ScenGen {
+	return &scenGen{r: r, cfg: cfg, tree: t, node: t.Root, pay: NewPayloads(r), mode: t.Prog.Mode}
+}
